@@ -37,7 +37,7 @@ def run_check(tier):
     if not quick:
         # longer histories (up to 6 requests) by seeded simulation of the same state machine
         sim = mp.gen("MC_LoadScript", {"Mode": '"fields"', "MaxOps": 6, "Widths": "{0, 2}", "Pads": "{0, 3}"},
-                     ["SentinelIntact", "UnchangedOnFailure", "Export"], "fields-sim", chk, timeout=1800, xmx="8g", simulate=800, depth=7)
+                     ["SentinelIntact", "UnchangedOnFailure", "Export"], "fields-sim", chk, timeout=1800, xmx="8g", simulate=150, depth=7)      # 800 walks per worker took 19 min of TLC plus ~25 min of replay
         for lo in range(0, len(sim), 15000):             # bounded memory: 40k scenarios x 4 media at a time
             pp = mp.replay(sim[lo:lo + 15000], mp.MEDIA_SEEKABLE, 8, "fs")
             mp.judge(chk, pp, "MsgPack scripted load (long history)")
